@@ -1,6 +1,7 @@
 (* C08 - Reports are well-formed, ordered and identical in both output formats.
    hl_lt / err_lt / status are generated from /repo's errors.py on every run. *)
-From NV Require Import Model.Base Model.Diag Model.Errors Model.CatalogueExpected Proofs.ErrOrderProofs Proofs.LexTies.
+From NV Require Import Model.Base Model.Diag Model.Errors Model.CatalogueExpected Proofs.ErrOrderProofs Proofs.LexTies
+  Gen.Emitters Proofs.EmittersProofs.
 From Coq Require Import Sorting.Sorted Sorting.Permutation.
 
 (* Error.__lt__ is a strict weak order on diagnostics that carry at least one highlight:
@@ -52,3 +53,33 @@ Proof.
   - intros x [].
   - reflexivity.
 Qed.
+
+(* "every diagnostic carries a code of the published catalogue": over the table of ALL static emission sites of the
+   package (Gen/Emitters.v, regenerated from the source on every run: calls of new_error / new_warning / Error.from_name /
+   Error(...)), every literal code is a key of the catalogue, except the listed ones (BAD_LEXEME - recorded finding, built
+   with a free-form text - and three literals at sites that would raise KeyError in Error.from_name if reached); no site has
+   an opaque (computed) code outside the two known patterns.  Diagnostics created through Error.from_name / new_error take
+   their text FROM the catalogue (errors.py), so code-in-catalogue implies catalogue text. *)
+Theorem C08_static_codes_in_catalogue_partial :
+  forallb (fun x => is_dynamic (site_code x) || existsb (String.eqb (site_code x)) codes_missing_from_catalogue
+                    || in_catalogue (site_code x)) emitters = true.
+Proof. exact every_static_code_in_catalogue_partial. Qed.
+Print Assumptions C08_static_codes_in_catalogue_partial.
+
+Theorem C08_no_opaque_emitter : opaque_free = true.
+Proof. exact emitters_opaque_free. Qed.
+Print Assumptions C08_no_opaque_emitter.
+
+Theorem C08_refuted_bad_lexeme_not_in_catalogue : in_catalogue "BAD_LEXEME" = false.
+Proof. exact BAD_LEXEME_not_in_catalogue. Qed.
+Print Assumptions C08_refuted_bad_lexeme_not_in_catalogue.
+
+(* "a position inside the file (1 <= line <= number of lines, column >= 1)": for EVERY source text and EVERY token of the
+   lexer model.  Engine diagnostics are located at tokens (Highlight.from_token copies the token's position; or, for
+   CheckCommentLineLen, at (a line of the comment, 1)), so their positions are token positions. *)
+From NV Require Import Model.Lexer Spec.TruePos Spec.Width Proofs.PosBounds.
+Theorem C08_token_position_in_file : forall uw ud src items xf t lo hi,
+  lex uw ud src = Ok (items, xf) -> In (ITok t lo hi) items ->
+  1 <= t_line t <= 1 + count_nl src /\ 1 <= t_col t.
+Proof. exact token_position_in_file. Qed.
+Print Assumptions C08_token_position_in_file.
